@@ -203,7 +203,13 @@ SubsetsOf(p) ==
 \* A journal slot image longer than one 512-byte sector (header 40 bytes + 8 per entry) can be torn:
 \* the slot then fails its checksum.  One torn unit at a time.
 TearMin == 60
-Tearable(p, u) == p[u[1]].kind = "j" /\ ~p[u[1]].v.z /\ ~p[u[1]].v.bad /\ Len(p[u[1]].v.exts) >= TearMin
+\* A data block can tear inside the block too (512-byte sectors): the device observer flags the blocks where that is
+\* observable - a record head (its first sector lands, the rest does not: the token no longer matches) and a marker
+\* written over a head (everything but the first sector lands: the old header over zeroed contents).  Disk!TornOver
+\* gives both the abstract block Xh.
+Tearable(p, u) ==
+  \/ p[u[1]].kind = "j" /\ ~p[u[1]].v.z /\ ~p[u[1]].v.bad /\ Len(p[u[1]].v.exts) >= TearMin
+  \/ p[u[1]].kind = "d" /\ "tear" \in DOMAIN p[u[1]] /\ u[2] + 1 <= Len(p[u[1]].tear) /\ p[u[1]].tear[u[2] + 1]
 TornSetsOf(p, S) == {{}} \cup {{u} : u \in {x \in S : Tearable(p, x)}}
 
 Expd(g, t) == g # 0 /\ conf.ttl /\ gens[g].exp # 0 /\ t > gens[g].exp
